@@ -166,6 +166,24 @@ func CheckOp(c *Ctx, req mon.OpReq, exp Expect, viaModel bool, mo mon.ModelOpts,
 		c.Count("diag:operator-modified-its-input-tensor", 1)
 		c.Logf("diagnostic: operator API call modified input %d: %s", muts[0].Index, muts[0].What)
 	}
+	if c.Idx%8 == 3 && ok {
+		// the same request on an operator instance that was already applied to other inputs
+		var warm [][]*ref.T
+		for n := c.R.Range(1, 2); n > 0; n-- {
+			if w, _, wok := SampleValidReq(c.R, req.Op, true); wok {
+				warm = append(warm, w.Inputs)
+			}
+		}
+		if len(warm) > 0 {
+			or := mon.RunOpReused(req, warm)
+			c.Eval(1)
+			c.Count("reused-instance-calls", 1)
+			if v := Judge(exp, or); !v.OK {
+				ok = false
+				report(c, fmt.Sprintf("api, operator instance already applied to %d other input list(s), first %s", len(warm), trunc(describeInputs(warm[0]), 200)), req, exp, or, v, known)
+			}
+		}
+	}
 	if viaModel {
 		om := mon.RunOpModel(req, mo)
 		c.Eval(1)
@@ -233,4 +251,15 @@ func CheckOpsShared(c *Ctx, reqs []mon.OpReq, exps []Expect, viaModel bool, isIn
 		}
 	}
 	return ok
+}
+
+func describeInputs(ins []*ref.T) string {
+	s := ""
+	for i, t := range ins {
+		if i > 0 {
+			s += ", "
+		}
+		s += t.String()
+	}
+	return s
 }
